@@ -533,6 +533,10 @@ impl DeviceControl for ControlHandle {
         }
 
         let payload_alignment = unwrap_or_log!(sirm.payload_size_alignment(self));
+        // The size registers the alignment applies to are 32 bits wide.
+        let payload_alignment: u32 = unwrap_or_log!(u32::try_from(payload_alignment).map_err(|_| {
+            ControlError::InvalidDevice("payload size alignment doesn't fit into 32 bits".into())
+        }));
         macro_rules! align {
             ($expr:expr, $ty: ty) => {
                 // Payload alignment is always power of two.
